@@ -10,8 +10,8 @@
 // StatementBegin / StatementComplete / Close like a statement.
 //
 // Harness-only package (memory imports sql/fulltext, so these cannot live in
-// package fulltext). The oracle is fulltext.ZzC51CheckIndexTables of
-// harness/sql/fulltext/zz_verif_c51_editor.go: after every operation the four
+// package fulltext). The oracle is c51CheckIndexTables of
+// zz_verif_c51_editor.go: after every operation the four
 // index tables, read back from the storage, are compared with what the parent
 // table's rows (also read back) prescribe under the reference tokeniser.
 package c51
@@ -115,7 +115,7 @@ func c51mNewFixture(id string, keyless, ci bool, pre []sql.Row) *c51mFixture {
 }
 
 func (f *c51mFixture) check() {
-	fulltext.ZzC51CheckIndexTables(f.ctx, f.id, f.ci, f.keyless, f.rows("t"), []int{1},
+	c51CheckIndexTables(f.ctx, f.id, f.ci, f.keyless, f.rows("t"), []int{1},
 		f.rows(f.names.RowCount), f.rows(f.names.Position), f.rows(f.names.DocCount), f.rows(f.names.GlobalCount))
 }
 
@@ -203,8 +203,8 @@ func (f *c51mFixture) step(k int, ndocs, ns int) {
 }
 
 // VerifC51MemoryPrimaryKey: real in-memory tables, parent (k BIGINT PRIMARY
-// KEY, doc TEXT); histories of 2 operations over the first 3 document cells
-// (thorough: 3 operations over 5 cells); both collations.
+// KEY, doc TEXT); histories of 2 (thorough 3) operations over 'aaa',
+// 'bbb aaa', NULL; both collations.
 func VerifC51MemoryPrimaryKey() {
 	f := c51mNewFixture("c51.memory.pk", false, nd.Pick("mpcoll", 2) == 0, nil)
 	if f == nil {
@@ -213,7 +213,7 @@ func VerifC51MemoryPrimaryKey() {
 	f.check()
 	ops := nd.Bound(2, 3)
 	for k := 0; k < ops; k++ {
-		f.step(k, nd.Bound(3, 5), 0)
+		f.step(k, 3, 0)
 	}
 }
 
